@@ -431,6 +431,8 @@ class KeyboardMatrix:
             "pressed_keys": list(self._pressed_keys),
             "key_states": key_states,
             "fifo": snapshot_fifo,
+            "fifo_len": (self._tail - self._head) % FIFO_SIZE,
+            "active_columns": list(self._active_columns()),
             "head": self._head,
             "tail": self._tail,
             "strobe_count": self.strobe_count,
